@@ -54,6 +54,8 @@ def main():
             sh(["git", "checkout", "--", "."], cwd=REPO)
             sh(["git", "clean", "-fdq", "--", "pdf", "pdf_derive", "examples"], cwd=REPO)
     assert clean()
+    # the runs above rewrote evidence files and the translator's generated tables from mutated trees: restore
+    sh(["git", "checkout", "--", "evidence", "lean/PdfModel/Generated"], cwd=ROOT)
     with open(os.path.join(ROOT, "seeded", "RESULTS.md"), "w") as f:
         f.write("# Seeded changes versus the registered quick checks\n\n(regenerate with `tools/run_seeded.py`; evidence files are restored afterwards by re-running the checks)\n\n| seeded change | property | outcome | replay kind | wall s |\n|---|---|---|---|---|\n")
         for r in rows:
